@@ -420,7 +420,7 @@ theorem renew_inv {so : ScriptOf} {a : Account} {newExpiry : UInt32} {rate : Int
 
 theorem close_inv {so : ScriptOf} {a : Account} {fe : FeeExpr} {ws : Bool → Script} {best : UInt32} {f : Faults}
     (h : (close so a fe ws best f).refusal = none) :
-    ¬ (a.state = StatePendingClosed ∨ a.state = StateClosed) ∧ ∃ outs,
+    (a.state = StateOpen ∨ a.state = StateExpired) ∧ ∃ outs,
       fe.closeOutputs ws a.value (determineWitnessType a best) = .ok outs ∧
       close so a fe ws best f
         = spendAccount so a .close (createSpendTx so a outs) (determineWitnessType a best)
@@ -433,8 +433,9 @@ theorem close_inv {so : ScriptOf} {a : Account} {fe : FeeExpr} {ws : Bool → Sc
     split at h
     · simp [refuse] at h
     · rename_i outs ho
-      refine ⟨hs, outs, ho, ?_⟩
-      simp [hs, ho]
+      have hs' : a.state = StateOpen ∨ a.state = StateExpired := Decidable.of_not_not hs
+      refine ⟨hs', outs, ho, ?_⟩
+      simp [hs', ho]
 
 theorem deposit_inv {so : ScriptOf} {a : Account} {amount rate : Int} {best eh : UInt32} {nv : Nat}
     {maxValue : Option Int} {fd : Option Funded} {f : Faults}
